@@ -169,6 +169,16 @@ func (g *grpcHandler) NewConn(
 		// encoding header that names nothing.)
 		header[grpcHeaderCompression] = []string{responseCompression}
 	}
+	if !g.web && request.ProtoMajor < 2 {
+		// Over HTTP/1.1 the status travels in the trailers of a chunked response.
+		// We add the trailers late, under http.TrailerPrefix, and net/http's
+		// HTTP/1.1 server honors that only if the response is chunked by then -
+		// which a small response isn't unless it has been flushed, and behind a
+		// middleware whose ResponseWriter lacks Flush it never is: it would go out
+		// with a Content-Length and without its Grpc-Status. Announcing the
+		// trailers every gRPC response has keeps the response chunked.
+		header["Trailer"] = append(header["Trailer"], grpcHeaderStatus+", "+grpcHeaderMessage+", "+grpcHeaderDetails)
+	}
 
 	codecName := grpcCodecFromContentType(g.web, request.Header.Get(headerContentType))
 	codec := g.Codecs.Get(codecName) // handler.go guarantees this is not nil
